@@ -5,6 +5,7 @@ import (
 	"path/filepath"
 
 	"github.com/osteele/liquid/render"
+	"github.com/osteele/liquid/values"
 )
 
 func includeTag(source string) (func(io.Writer, render.Context) error, error) {
@@ -18,7 +19,7 @@ func includeTag(source string) (func(io.Writer, render.Context) error, error) {
 		}
 		rel, ok := value.(string)
 		if !ok {
-			return ctx.Errorf("include requires a string argument; got %v", value)
+			return ctx.Errorf("include requires a string argument; got %s", values.Sprint(value))
 		}
 		filename := filepath.Join(filepath.Dir(ctx.SourceFile()), rel)
 		s, err := ctx.RenderFile(filename, map[string]any{})
